@@ -24,6 +24,9 @@ def run(tier):
     # used itself (indices must be those of the content it holds now)
     hs += random_table_histories(rng, 60 if tier == "quick" else 1200, 24)
     m1 = run_tables(chk, hs, {"C11"}, label="c11")
+    # a block handed from thread to thread (calls never overlap): what a table returns depends on the values, not on who adds them
+    hh = random_table_histories(rng, 40 if tier == "quick" else 600, 24) + growth_histories(rng, 4 if tier == "quick" else 40, 300)
+    m1h = run_tables(chk, hh, {"C11"}, label="c11h", handoff=True)
     # isolation between consecutive blocks + closure/duplicates in written tables (independent parse)
     rng2 = rng_for(chk, 11)
     n = 40 if tier == "quick" else 600
@@ -37,7 +40,7 @@ def run(tier):
     th = [histgen.gen_history(rng3, nops=rng3.choice([30, 60]), comp="none", sizes=[3, 10000], rot=False, qr_mode="dense")
           for _ in range(32 if tier == "quick" else 300)]
     m3 = run_threads(chk, "plain", 8, 2, th, "c11t", relevant={"C11"})
-    chk.distinct = m1["execs"] + m2["execs"] + m3["execs"]
+    chk.distinct = m1["execs"] + m1h["execs"] + m2["execs"] + m3["execs"]
     return chk.finish()
 
 
